@@ -10,7 +10,7 @@ from hypothesis import strategies as st
 
 from gen import ecgen
 from gen.ecgen import REF, ref_curve, curve_label, get_gen
-from vlib.core import SubCheck, Violation
+from vlib.core import HarnessError, SubCheck, Violation
 
 from pycoin.ecdsa.Curve import Curve
 from pycoin.ecdsa.Generator import Generator
@@ -602,7 +602,10 @@ def o_big_genmul(case):
     labels = [curve_label(spec), "cfg=" + cfg, _kclass(k, n), "rel=" + case["rel"], "entropy=" + case["ent"]]
     g = ecgen.build_generator(spec, cfg, entropy_f=ecgen.entropy_from_hex(case["entropy"]))
     b = int.from_bytes(bytes.fromhex(case["entropy"]), "big") % n
-    labels.append("blinding-factor-as-chosen" if getattr(g, "_blinding_factor", None) == b else "blinding-factor-differs-from-entropy-mod-n")
+    if getattr(g, "_blinding_factor", None) != b:
+        raise HarnessError("the generator built with chosen entropy does not carry the chosen blinding factor: this "
+                           "sub-check would be vacuous (attribute renamed or entropy width changed?)")
+    labels.append("blinding-factor-as-chosen")
     check_genmul(c, g, "Generator/%s with blinding factor %s" % (cfg, hex(b)), c.G, k, want)
     s = get_gen(spec, "shipped")
     check_genmul(c, s, "Generator/shipped", c.G, k, want)
